@@ -1,1 +1,18 @@
 import SophiaProofs.Props.C10
+open SophiaProofs.C10
+#print axioms winv_init
+#print axioms sc_preserved
+#print axioms winv_self_contained
+#print axioms audit_clean_self_contained
+#print axioms no_dangling
+#print axioms read_after_history
+#print axioms clone_same_content
+#print axioms clone_independent
+#print axioms clone_independent_run
+#print axioms derive_clone_dangles
+#print axioms derive_not_safe
+#print axioms c10_holds
+#print axioms c10_verdict
+#print axioms unwrap_unchecked_safe
+#print axioms unwrap_unchecked_safe_gen
+#print axioms ensure_owned_sound
